@@ -121,6 +121,13 @@ Theorem last_announcement_acted_on : forall cap s,
 Proof. exact last_announcement_acted_on. Qed.
 Print Assumptions last_announcement_acted_on.
 
+(* "last announced head" (lastRecv) counts the announcements that passed the receiver's
+   allow filter: a rejected one is a no-op of the system, in every state and variant *)
+Theorem rejected_announcements_are_noops : forall v cap s p c,
+  stepf v cap s (AnnRejected p c) = Some s.
+Proof. exact rejected_announcements_are_noops. Qed.
+Print Assumptions rejected_announcements_are_noops.
+
 (* With explicit syncs mixed in, the latest sync may also have been moved on by an
    explicit sync that completed after the last announcement was handled: that is the
    fourth disjunct; it cannot hold in announce-only histories (next theorem). *)
